@@ -413,6 +413,8 @@ structure Inv (s : St) : Prop where
   headUt : ∀ h, s.entries.head? = some h → h.endT ≤ s.now + s.ut
   /-- (C) the outflow bound: the custody set still holds everything the schedule keeps locked, now and later -/
   cust : s.created = true → ∀ t l, s.now ≤ t → lockedT s t = .ok l → l ≤ custody s
+  /-- nothing is unbonding for an account that does not exist yet -/
+  pre : s.created = false → s.scUnb = []
 
 /-- well-formed inputs: third-party messages are signed by accounts outside the custody set, boundary amounts are
     non-negative, and (no-slash hypothesis) the validator's share token trades 1:1 -/
@@ -580,6 +582,7 @@ theorem inv_mono {s s' : St} (hI : Inv s)
   · intro hc t l ht hl
     rw [e2] at hc; rw [e11] at ht; rw [hL] at hl
     have := hI.cust hc t l ht hl; omega
+  · intro hc; rw [e2] at hc; rw [e10]; exact hI.pre hc
 
 theorem claim_bal (b : Bank) (w : Addr) (e : Ext) (a : Addr) (d : Denom) :
     (claim b w e).bal a d = b.bal a d + (if a = w ∧ d = fee then e.rewFee else 0) + (if a = w ∧ d = bond then e.rewBond else 0) := by
@@ -751,6 +754,12 @@ theorem inv_block {s s' : St} {t : Int} (hI : Inv s) (h : doBlock s t = .ok s') 
     · intro hc t' l ht' hl
       have := hI.cust hc t' l (by show s.now ≤ t'; have : t ≤ t' := ht'; omega) hl
       omega
+    · intro hc
+      have hnil := hI.pre hc
+      show sc = []
+      cases sc with
+      | nil => rfl
+      | cons u r => have := p5 u (by simp); rw [hnil] at this; simp at this
 
 theorem inv_nvUndelegate {s s' : St} {c sd : Addr} {vo : Bool} {d : Denom} {amt : Int} {e : Ext} (hI : Inv s)
     (ho : extOk e ∧ e.share = amt) (h : doNvUndelegate s c sd vo d amt e = .ok s') : Inv s' := by
@@ -854,6 +863,11 @@ theorem inv_nvUndelegate {s s' : St} {c sd : Addr} {vo : Bool} {d : Denom} {amt 
     simp only [hv] at this ⊢
     show l ≤ Bank.bal _ lock fee + Bank.bal _ lock shareD + sumUnb lock (s.scUnb ++ [⟨lock, amt, s.now + s.ut⟩])
     rw [fL, fS, sumUnb_append]; simp; omega
+  · intro hc
+    simp only [Bool.or_eq_true, Bool.not_eq_true', decide_eq_true_eq, not_or] at hcv
+    have h1 := hcv.1
+    have hc' : s.created = false := hc
+    rw [hc'] at h1; simp at h1
 
 theorem trackDel_facts {v : Variant} {bal locked dv df amt dv' df' : Int} (ha : 0 ≤ amt)
     (h : trackDelegation v bal locked dv df amt = some (dv', df')) :
@@ -986,5 +1000,172 @@ theorem inv_nvDelegate {s s' : St} {c sd : Addr} {vo : Bool} {d : Denom} {amt : 
     simp only [hv] at this ⊢
     show l ≤ b5.bal lock fee + b5.bal lock shareD + sumUnb lock s.scUnb
     rw [fL, fS]; omega
+  · intro hc
+    have hc' : s.created = false := hc
+    rw [hcr] at hc'; simp at hc'
+
+theorem lockedAt_le_ol (v : Variant) (ol st en t l : Int) (ho : 0 ≤ ol) (hl : lockedAt v ol st en t = .ok l) : l ≤ ol := by
+  have hv : ∃ sd, v = vOf sd := by cases v; exact ⟨false, rfl⟩; exact ⟨true, rfl⟩
+  obtain ⟨sd, rfl⟩ := hv
+  unfold lockedAt at hl
+  have := schedule_range sd ol st en t
+  unfold S_schedule_range lockOk unlockedVal lockedVal at this
+  cases hi : lockInfo (vOf sd) ol st en t with
+  | ok p =>
+    simp [hi, Res.bind] at hl
+    have := this ho (by simp [hi, Res.isOk])
+    simp [hi] at this
+    omega
+  | err c => simp [hi, Res.bind] at hl
+  | panic k => simp [hi, Res.bind] at hl
+
+theorem inv_init {s s' : St} {v : Variant} {funder owner : Addr} {funds : Int} {sz : Bool} {st : Int} {ez : Bool} {en : Int}
+    (hI : Inv s) (ho : funder ≠ lock) (h : doInit s v funder owner funds sz st ez en = .ok s') : Inv s' := by
+  simp only [doInit] at h
+  split at h; · simp at h
+  rename_i hnc
+  split at h; · simp at h
+  rename_i hf
+  split at h; · simp at h
+  split at h; · simp at h
+  obtain ⟨b, hb, h⟩ := Bank.bind_ok h
+  simp only [Res.ok.injEq] at h
+  subst h
+  have hf0 : 0 ≤ funds := by omega
+  have hnil : s.scUnb = [] := hI.pre (by simpa using hnc)
+  have fL : b.bal lock fee = s.bank.bal lock fee + funds := by
+    split at hb
+    · rename_i hz; simp only [Res.ok.injEq] at hb; subst hb; omega
+    · obtain ⟨_, _, e⟩ := Bank.send_ok hb
+      subst e
+      have : ¬ (lock = funder) := fun c => ho c.symm
+      simp [Bank.credit_bal, this]
+  have fS : b.bal lock shareD = s.bank.bal lock shareD := by
+    split at hb
+    · simp only [Res.ok.injEq] at hb; subst hb; rfl
+    · obtain ⟨_, _, e⟩ := Bank.send_ok hb
+      subst e; simp [Bank.credit_bal, fee, shareD]
+  have fP : b.bal "plock" bond = s.bank.bal "plock" bond := by
+    split at hb
+    · simp only [Res.ok.injEq] at hb; subst hb; rfl
+    · obtain ⟨_, _, e⟩ := Bank.send_ok hb
+      subst e; simp [Bank.credit_bal, fee, bond]
+  have hsu := sumUnb_nonneg "plock" s.ubds (ubdNonneg hI)
+  constructor
+  · exact hf0
+  · exact hI.ut0
+  · show (0:Int) ≤ 0; omega
+  · show (0:Int) ≤ 0; omega
+  · show 0 ≤ b.bal lock fee; rw [fL]; have := hI.bL0; omega
+  · show 0 ≤ b.bal lock shareD; rw [fS]; exact hI.bS0
+  · show 0 ≤ b.bal "plock" bond; rw [fP]; exact hI.bP0
+  · exact hI.st0
+  · exact hI.ubd0
+  · exact hI.sc0
+  · intro _ t l _ hl
+    have := lockedAt_le_ol _ _ _ _ _ _ hf0 hl
+    show l - 0 ≤ b.bal lock fee
+    rw [fL]; have := hI.bL0; omega
+  · unfold actualDelegated
+    have := hI.bS0; have := hI.st0; have := hI.bP0
+    cases v <;> simp [sumEntries, fS, fP] <;> omega
+  · intro _ _
+    show (0:Int) + 0 ≤ b.bal lock shareD + sumUnb lock s.scUnb
+    rw [fS, hnil]; simp [sumUnb]; exact hI.bS0
+  · intro u hu
+    have : u ∈ s.scUnb := hu
+    rw [hnil] at this; simp at this
+  · intro h0 hh0
+    have : ([] : List Entry).head? = some h0 := hh0
+    simp at this
+  · intro _ t l _ hl
+    have := lockedAt_le_ol _ _ _ _ _ _ hf0 hl
+    unfold custody
+    have := hI.bS0; have := hI.st0; have := hI.bP0; have := hI.bL0
+    have hs : s.scUnb = [] := hnil
+    cases v <;> simp [fL, fS, fP, hs, sumUnb] <;> omega
+  · intro hc; simp at hc
+
+/-- the operations for which preservation of the invariant is proved (see design/C12.md for the ones left out) -/
+def Core : Op → Prop
+  | .init .. | .deposit .. | .block .. | .send .. | .nvDelegate .. | .nvUndelegate .. | .nvWithdrawReward ..
+  | .pxWithdrawReward .. | .pxSend .. => True
+  | _ => False
+
+theorem inv_halted {s : St} (hI : Inv s) : Inv { s with halted := true } :=
+  ⟨hI.ol0, hI.ut0, hI.dv0, hI.df0, hI.bL0, hI.bS0, hI.bP0, hI.st0, hI.ubd0, hI.sc0, hI.cover, hI.tracked, hI.liveNv,
+   hI.scHead, hI.headUt, hI.cust, hI.pre⟩
+
+theorem inv_step {s : St} {op : Op} (hI : Inv s) (hc : Core op) (ho : OpOk op) : Inv (step s op).1 := by
+  unfold step
+  by_cases hh : s.halted
+  · simp [hh]; exact hI
+  · simp only [hh, Bool.false_eq_true, if_false]
+    cases ha : Lockup.apply s op with
+    | err c => cases op <;> first | exact hI | exact inv_halted hI
+    | panic k => exact hI
+    | ok s' =>
+      show Inv s'
+      cases op <;> simp only [Core] at hc <;> simp only [OpOk] at ho <;> simp only [Lockup.apply] at ha
+      · exact inv_init hI ho ha
+      · exact inv_deposit hI ho (by simpa [Lockup.apply] using ha)
+      · exact inv_block hI ha
+      · exact inv_send hI ha
+      · exact inv_nvDelegate hI ho ha
+      · exact inv_nvUndelegate hI ho ha
+      · exact inv_nvWithdrawReward hI ho ha
+      · exact inv_pxWithdrawReward hI ho ha
+      · exact inv_pxSend hI ha
+
+/-- states from which histories start: no lockup account yet, nothing tracked, nothing unbonding, no negative balance -/
+def Genesis (s : St) : Prop :=
+  s.created = false ∧ s.halted = false ∧ s.DV = 0 ∧ s.DF = 0 ∧ s.OL = 0 ∧ s.entries = [] ∧ s.ubds = [] ∧ s.scUnb = []
+  ∧ 0 ≤ s.ut ∧ 0 ≤ s.bank.bal lock fee ∧ 0 ≤ s.bank.bal lock shareD ∧ 0 ≤ s.bank.bal "plock" bond ∧ 0 ≤ s.stake "plock"
+
+theorem inv_genesis {s : St} (g : Genesis s) : Inv s := by
+  obtain ⟨g1, g2, g3, g4, g5, g6, g7, g8, g9, g10, g11, g12, g13⟩ := g
+  constructor
+  · omega
+  · exact g9
+  · omega
+  · omega
+  · exact g10
+  · exact g11
+  · exact g12
+  · exact g13
+  · intro u hu; rw [g7] at hu; simp at hu
+  · intro u hu; rw [g8] at hu; simp at hu
+  · intro hc; rw [g1] at hc; simp at hc
+  · unfold actualDelegated; rw [g3, g4, g6, g7]; cases s.variant <;> simp [sumEntries, sumUnb] <;> omega
+  · intro _ _; rw [g3, g4, g8]; simp [sumUnb]; exact g11
+  · intro u hu; rw [g8] at hu; simp at hu
+  · intro h0 hh0; rw [g6] at hh0; simp at hh0
+  · intro hc; rw [g1] at hc; simp at hc
+  · intro _; exact g8
+
+/-- invariant by induction over operation lists of any length, with arbitrary amounts, callers and block times -/
+theorem inv_run (ops : List Op) : ∀ (s : St), Inv s → (∀ op ∈ ops, Core op ∧ OpOk op) → Inv (run s ops) := by
+  induction ops with
+  | nil => intro s hI _; exact hI
+  | cons op r ih =>
+    intro s hI hall
+    have h1 := hall op (by simp)
+    exact ih (step s op).1 (inv_step hI h1.1 h1.2) (fun o ho => hall o (by simp [ho]))
+
+/-- **outflow_bound** — in every state reachable from a genesis state, at the current block time and at any later one,
+    the custody set (the account's fee balance, its share tokens / its proxy's stake, and the unbondings on their way back)
+    is worth at least what the schedule still keeps locked.  Equivalently: cumulative outflow ≤ unlocked(t) + inflows. -/
+theorem outflow_bound (s0 : St) (ops : List Op) (g : Genesis s0) (hops : ∀ op ∈ ops, Core op ∧ OpOk op)
+    (hc : (run s0 ops).created = true) (t l : Int) (ht : (run s0 ops).now ≤ t) (hl : lockedT (run s0 ops) t = .ok l) :
+    l ≤ custody (run s0 ops) :=
+  (inv_run ops s0 (inv_genesis g) hops).cust hc t l ht hl
+
+/-- **tracked_le_actual** — DV + DF never exceed what is delegated, unbonding, or unbonded-and-not-yet-tracked
+    (sd: the proxy's stake + unbondings + bond balance; nv: share tokens + recorded unbond entries); no-slash hypothesis
+    = `OpOk` (share price 1) and the model's staking never reducing a stake -/
+theorem tracked_le_actual (s0 : St) (ops : List Op) (g : Genesis s0) (hops : ∀ op ∈ ops, Core op ∧ OpOk op) :
+    0 ≤ (run s0 ops).DV ∧ 0 ≤ (run s0 ops).DF ∧ (run s0 ops).DV + (run s0 ops).DF ≤ actualDelegated (run s0 ops) :=
+  let h := inv_run ops s0 (inv_genesis g) hops
+  ⟨h.dv0, h.df0, h.tracked⟩
 
 end Sunrise.C12
